@@ -1,7 +1,7 @@
 (* Float-level theorems about the bit-exact model of the index mappings (Mapping/Glue.v).
    Every statement quantifies over ALL binary64 values satisfying the stated hypotheses; nothing is sampled.
    Proofs go through Flocq's [_correct] lemmas and [B2R]; the oracle [libm] stays abstract. *)
-From Coq Require Import Bool NArith ZArith QArith Qcanon Qreals Reals Lra Lia.
+From Coq Require Import Bool NArith ZArith QArith Qcanon Qreals Reals Lra Lia Psatz.
 From Flocq Require Import Core.Core IEEE754.BinarySingleNaN IEEE754.Binary IEEE754.Bits.
 From SK Require Import Base.Prelude Base.F64 Base.F64Proofs Mapping.Glue.
 
@@ -11,8 +11,11 @@ From SK Require Import Base.Prelude Base.F64 Base.F64Proofs Mapping.Glue.
 (* ------------------------------------------------------------------ *)
 (* 0. notation and elementary facts                                    *)
 (* ------------------------------------------------------------------ *)
-Definition BR (x : f64) : R := B2R 53 1024 x.
-Definition fin (x : f64) : Prop := is_finite 53 1024 x = true.
+(* abbreviations, not definitions: the statements below are literally about Flocq's B2R / is_finite
+   (a defined wrapper would make the conversion test of a restated theorem normalise the float
+   expression under it, which takes minutes on the cubic polynomial) *)
+Notation BR x := (B2R 53 1024 x).
+Notation fin x := (is_finite 53 1024 x = true).
 
 (* finite, strictly positive, normal: 2^-1022 <= x (x < 2^1024 holds for every finite float) *)
 Definition pos_normal (x : f64) : Prop := fin x /\ (bpow radix2 (-1022) <= BR x)%R.
@@ -40,7 +43,7 @@ Lemma f64_one_fin : fin f64_one.
 Proof. reflexivity. Qed.
 Lemma f64_one_BR : BR f64_one = 1%R.
 Proof.
-  unfold BR, f64_one, f64_of_bits, b64_of_bits, binary_float_of_bits. rewrite B2R_FF2B.
+  unfold f64_one, f64_of_bits, b64_of_bits, binary_float_of_bits. rewrite B2R_FF2B.
   set (u := binary_float_of_bits_aux 52 11 _). vm_compute in u. subst u.
   unfold FF2R, F2R. cbn [Fnum Fexp cond_Zopp].
   change (bpow radix2 (-52)) with (/ IZR (Z.pow_pos 2 52))%R.
@@ -54,7 +57,7 @@ Proof. intros H. rewrite <- is_finite_B2FF, H. reflexivity. Qed.
 
 Lemma fadd_R (a b : f64) : fin a -> fin b -> fin (fadd a b) -> BR (fadd a b) = rndR (BR a + BR b).
 Proof.
-  unfold fin, BR. intros Ha Hb Hf.
+  intros Ha Hb Hf.
   pose proof (Binary.Bplus_correct 53 1024 eq_refl eq_refl binop_nan_pl64 mode_NE a b Ha Hb) as H.
   change (Binary.Bplus 53 1024 eq_refl eq_refl binop_nan_pl64 mode_NE a b) with (fadd a b) in H.
   destruct (Rlt_bool _ _).
@@ -64,7 +67,7 @@ Qed.
 
 Lemma fsub_R (a b : f64) : fin a -> fin b -> fin (fsub a b) -> BR (fsub a b) = rndR (BR a - BR b).
 Proof.
-  unfold fin, BR. intros Ha Hb Hf.
+  intros Ha Hb Hf.
   pose proof (Binary.Bminus_correct 53 1024 eq_refl eq_refl binop_nan_pl64 mode_NE a b Ha Hb) as H.
   change (Binary.Bminus 53 1024 eq_refl eq_refl binop_nan_pl64 mode_NE a b) with (fsub a b) in H.
   destruct (Rlt_bool _ _).
@@ -74,7 +77,7 @@ Qed.
 
 Lemma fmul_R (a b : f64) : fin (fmul a b) -> BR (fmul a b) = rndR (BR a * BR b).
 Proof.
-  unfold fin, BR. intros Hf.
+  intros Hf.
   pose proof (Binary.Bmult_correct 53 1024 eq_refl eq_refl binop_nan_pl64 mode_NE a b) as H.
   change (Binary.Bmult 53 1024 eq_refl eq_refl binop_nan_pl64 mode_NE a b) with (fmul a b) in H.
   destruct (Rlt_bool _ _).
@@ -86,7 +89,7 @@ Qed.
 Lemma fadd_bounded (a b : f64) : fin a -> fin b -> (Rabs (BR a + BR b) <= IZR f64max_Z)%R ->
   fin (fadd a b) /\ BR (fadd a b) = rndR (BR a + BR b).
 Proof.
-  unfold fin, BR. intros Ha Hb Hr.
+  intros Ha Hb Hr.
   pose proof (Binary.Bplus_correct 53 1024 eq_refl eq_refl binop_nan_pl64 mode_NE a b Ha Hb) as H.
   change (Binary.Bplus 53 1024 eq_refl eq_refl binop_nan_pl64 mode_NE a b) with (fadd a b) in H.
   rewrite Rlt_bool_true in H by (apply no_overflow_Rabs; exact Hr).
@@ -96,7 +99,7 @@ Qed.
 Lemma fsub_bounded (a b : f64) : fin a -> fin b -> (Rabs (BR a - BR b) <= IZR f64max_Z)%R ->
   fin (fsub a b) /\ BR (fsub a b) = rndR (BR a - BR b).
 Proof.
-  unfold fin, BR. intros Ha Hb Hr.
+  intros Ha Hb Hr.
   pose proof (Binary.Bminus_correct 53 1024 eq_refl eq_refl binop_nan_pl64 mode_NE a b Ha Hb) as H.
   change (Binary.Bminus 53 1024 eq_refl eq_refl binop_nan_pl64 mode_NE a b) with (fsub a b) in H.
   rewrite Rlt_bool_true in H by (apply no_overflow_Rabs; exact Hr).
@@ -106,7 +109,7 @@ Qed.
 Lemma fmul_bounded (a b : f64) : fin a -> fin b -> (Rabs (BR a * BR b) <= IZR f64max_Z)%R ->
   fin (fmul a b) /\ BR (fmul a b) = rndR (BR a * BR b).
 Proof.
-  unfold fin, BR. intros Ha Hb Hr.
+  intros Ha Hb Hr.
   pose proof (Binary.Bmult_correct 53 1024 eq_refl eq_refl binop_nan_pl64 mode_NE a b) as H.
   change (Binary.Bmult 53 1024 eq_refl eq_refl binop_nan_pl64 mode_NE a b) with (fmul a b) in H.
   rewrite Rlt_bool_true in H by (apply no_overflow_Rabs; exact Hr).
@@ -116,7 +119,7 @@ Qed.
 (* a finite result has finite operands *)
 Lemma fadd_fin_inv (a b : f64) : fin (fadd a b) -> fin a /\ fin b.
 Proof.
-  unfold fin, fadd, b64_plus, Binary.Bplus. rewrite is_finite_BSN2B.
+  unfold fadd, b64_plus, Binary.Bplus. rewrite is_finite_BSN2B.
   destruct a as [sa|sa|sa pa Ha|sa ma ea Ha]; destruct b as [sb|sb|sb pb Hb|sb mb eb Hb];
     cbn [B2BSN BinarySingleNaN.Bplus]; intros H; try (split; reflexivity);
     try discriminate H; try (destruct (Bool.eqb sa sb); discriminate H).
@@ -124,7 +127,7 @@ Qed.
 
 Lemma fmul_fin_inv (a b : f64) : fin (fmul a b) -> fin a /\ fin b.
 Proof.
-  unfold fin, fmul, b64_mult, Binary.Bmult. rewrite is_finite_BSN2B.
+  unfold fmul, b64_mult, Binary.Bmult. rewrite is_finite_BSN2B.
   destruct a as [sa|sa|sa pa Ha|sa ma ea Ha]; destruct b as [sb|sb|sb pb Hb|sb mb eb Hb];
     cbn [B2BSN BinarySingleNaN.Bmult]; intros H; try (split; reflexivity); try discriminate H.
 Qed.
@@ -132,7 +135,7 @@ Qed.
 (* comparison with zero *)
 Lemma fle_zero (a : f64) : fin a -> fle f64_zero a = true <-> (0 <= BR a)%R.
 Proof.
-  unfold fin, BR, fle, fcmp, b64_compare. intros Ha.
+  unfold fle, fcmp, b64_compare. intros Ha.
   rewrite (Binary.Bcompare_correct 53 1024 f64_zero a eq_refl Ha).
   change (B2R 53 1024 f64_zero) with 0%R.
   destruct (Rcompare_spec 0 (B2R 53 1024 a)); split; intros; try reflexivity; try discriminate; lra.
@@ -140,7 +143,7 @@ Qed.
 
 Lemma int_of_f_R (a : f64) : int_of_f a = Ztrunc (BR a).
 Proof.
-  apply eq_IZR. unfold int_of_f, BR. rewrite Binary.Btrunc_correct. rewrite round_FIX_IZR.
+  apply eq_IZR. unfold int_of_f. rewrite Binary.Btrunc_correct. rewrite round_FIX_IZR.
   - reflexivity.
   - reflexivity.
 Qed.
@@ -223,7 +226,7 @@ Lemma pos_normal_inv (x : f64) : pos_normal x ->
   exists mx ex H, x = B754_finite 53 1024 false mx ex H /\
                   2 ^ 52 <= Zpos mx < 2 ^ 53 /\ -1074 <= ex <= 971.
 Proof.
-  intros (Hf & Hb). unfold fin in Hf. unfold BR in Hb.
+  intros (Hf & Hb).
   pose proof (bpow_gt_0 radix2 (-1022)) as Hp.
   destruct x as [s|s|s pl Hpl|s m e H]; try discriminate Hf.
   - simpl in Hb. lra.
@@ -320,7 +323,7 @@ Proof.
   intros Hi. unfold f_of_int, w_of_Z.
   destruct (q2f_correct (Q2Qc (inject_Z i)) (dyadic_of_Z i)) as (HF & HR).
   - rewrite qR_of_Z, rndR_IZR by exact Hi. apply int_lt_emax; exact Hi.
-  - split; [exact HF|]. unfold BR. rewrite HR, qR_of_Z. apply rndR_IZR; exact Hi.
+  - split; [exact HF|]. rewrite HR, qR_of_Z. apply rndR_IZR; exact Hi.
 Qed.
 
 (* the unbiased exponent of a nonzero real: 2^e <= |r| < 2^(e+1) *)
@@ -335,7 +338,7 @@ Qed.
 Lemma x_exp_finite (mx : positive) (ex : Z) (H : SpecFloat.bounded 53 1024 mx ex = true) :
   2 ^ 52 <= Zpos mx < 2 ^ 53 -> x_exp (B754_finite 53 1024 false mx ex H) = ex + 52.
 Proof.
-  intros Hm. unfold x_exp, BR. cbn [B2R cond_Zopp].
+  intros Hm. unfold x_exp. cbn [B2R cond_Zopp].
   rewrite mag_F2R_Zdigits by discriminate. rewrite (Zdigits_53 mx Hm). lia.
 Qed.
 
@@ -396,9 +399,9 @@ Proof.
   rewrite (x_exp_finite mx ex H Hm). unfold sp1_of. rewrite Hge, Hgs.
   destruct (f_of_int_correct (ex + 52) ltac:(lia)) as (Ff & Rf).
   repeat split; try lia; try assumption.
-  - unfold BR. cbn [B2R cond_Zopp]. apply (F2R_52 mx Hm).
-  - unfold BR. cbn [B2R cond_Zopp]. apply (F2R_52 mx Hm).
-  - unfold BR. cbn [B2R cond_Zopp]. apply F2R_split.
+  - cbn [B2R cond_Zopp]. apply (F2R_52 mx Hm).
+  - cbn [B2R cond_Zopp]. apply (F2R_52 mx Hm).
+  - cbn [B2R cond_Zopp]. apply F2R_split.
 Qed.
 
 Lemma x_exp_mono (x y : f64) : pos_normal x -> (BR x <= BR y)%R -> x_exp x <= x_exp y.
@@ -560,36 +563,6 @@ Proof.
   apply log_index_mono; try assumption; try lra; apply index_arg_fin; assumption.
 Qed.
 
-(* cubic mapping: what composes.  approximateLog = P(s) + e with P evaluated by Horner's rule on
-   s = significandPlusOne - 1; P(s) is the same float for two values with the same significand,
-   and the final addition is monotone in e. *)
-Lemma approx_log_cub_mono_same_significand (x y : f64) :
-  pos_normal x -> pos_normal y -> sp1_of x = sp1_of y -> (BR x <= BR y)%R ->
-  fin (approx_log L MCub x) -> fin (approx_log L MCub y) ->
-  (BR (approx_log L MCub x) <= BR (approx_log L MCub y))%R.
-Proof.
-  intros Hx Hy Hs Hxy. unfold approx_log. fold (sp1_of x). fold (sp1_of y). rewrite Hs.
-  set (p := fmul _ (fsub (sp1_of y) f64_one)). intros Fx Fy.
-  destruct (decompose_R x Hx) as (_ & _ & Fex & Rex & _).
-  destruct (decompose_R y Hy) as (_ & _ & Fey & Rey & _).
-  destruct (fadd_fin_inv _ _ Fx) as (Fp & _).
-  rewrite (fadd_R _ _ Fp Fex Fx), (fadd_R _ _ Fp Fey Fy), Rex, Rey.
-  apply rndR_le. apply Rplus_le_compat_l. apply IZR_le. apply x_exp_mono; assumption.
-Qed.
-
-Theorem cub_index_mono_partial (m : gmap) (x y : f64) :
-  gm_kind m = MCub -> (0 <= BR (gm_mult m))%R ->
-  pos_normal x -> pos_normal y -> sp1_of x = sp1_of y -> (BR x <= BR y)%R ->
-  fin (fadd (fmul (approx_log L MCub x) (gm_mult m)) (gm_off m)) ->
-  fin (fadd (fmul (approx_log L MCub y) (gm_mult m)) (gm_off m)) ->
-  gm_index L m x <= gm_index L m y.
-Proof.
-  intros K Hm Hx Hy Hs Hxy Fx Fy. rewrite !gm_index_eq, K.
-  apply index_of_mono; try assumption.
-  destruct (fadd_fin_inv _ _ Fx) as (Fpx & _). destruct (fadd_fin_inv _ _ Fy) as (Fpy & _).
-  destruct (fmul_fin_inv _ _ Fpx) as (Fax & _). destruct (fmul_fin_inv _ _ Fpy) as (Fay & _).
-  apply approx_log_cub_mono_same_significand; assumption.
-Qed.
 End Index.
 
 (* ------------------------------------------------------------------ *)
@@ -648,7 +621,7 @@ Proof.
   assert (mx' = mx) by lia. subst mx'.
   assert (HR : BR (B754_finite 53 1024 false mx (e + 1023 - 1075) H') =
                (BR (B754_finite 53 1024 false mx (-52) H) * bpow radix2 e)%R).
-  { unfold BR. cbn [B2R cond_Zopp]. rewrite F2R_split. f_equal. f_equal. lia. }
+  { cbn [B2R cond_Zopp]. rewrite F2R_split. f_equal. f_equal. lia. }
   split; [reflexivity|]. split; [exact HR|].
   split; [reflexivity|]. rewrite HR.
   apply Rle_trans with (1 * bpow radix2 e)%R.
@@ -822,3 +795,508 @@ Proof.
   rewrite Hs, <- plus_IZR, rndR_IZR by lia. rewrite <- minus_IZR, rndR_IZR by lia.
   f_equal. lia.
 Qed.
+
+(* one rounding of a real of magnitude at most 1026 moves it by at most 2^-43 *)
+Lemma rndR_err_1026 (r : R) : (Rabs r <= 1026)%R -> (Rabs (rndR r - r) <= bpow radix2 (-43))%R.
+Proof.
+  intros Hr. unfold rndR.
+  apply Rle_trans with (/ 2 * ulp radix2 (FLT_exp (-1074) 53) r)%R.
+  - apply error_le_half_ulp. exact fexp64_valid.
+  - assert (Hu : (ulp radix2 (FLT_exp (-1074) 53) r <= bpow radix2 (-42))%R).
+    { apply Rle_trans with (ulp radix2 (FLT_exp (-1074) 53) 1026).
+      - apply ulp_le.
+        + exact fexp64_valid.
+        + apply FLT_exp_monotone.
+        + rewrite (Rabs_pos_eq 1026) by lra. exact Hr.
+      - rewrite ulp_neq_0 by lra. apply bpow_le. unfold cexp, FLT_exp.
+        rewrite (mag_unique radix2 1026 11); [lia|].
+        rewrite Rabs_pos_eq by lra.
+        change (bpow radix2 (11 - 1)) with (IZR (Z.pow_pos 2 10)).
+        change (bpow radix2 11) with (IZR (Z.pow_pos 2 11)).
+        change (Z.pow_pos 2 10) with 1024. change (Z.pow_pos 2 11) with 2048. lra. }
+    change (bpow radix2 (-43)) with (/ IZR (Z.pow_pos 2 43))%R.
+    change (bpow radix2 (-42)) with (/ IZR (Z.pow_pos 2 42))%R in Hu.
+    change (Z.pow_pos 2 43) with 8796093022208. change (Z.pow_pos 2 42) with 4398046511104 in Hu.
+    lra.
+Qed.
+
+(* the linear approximateLog is  e + (m - 1)  up to 2^-42 *)
+Lemma approx_log_lin_err (L : libm) (x : f64) : pos_normal x ->
+  (Rabs (BR (approx_log L MLin x) - (IZR (x_exp x) + (BR (sp1_of x) - 1))) <= bpow radix2 (-42))%R.
+Proof.
+  intros Hx. destruct (approx_log_lin_R L x Hx) as (_ & -> & _).
+  destruct (decompose_R x Hx) as (Be & _ & _ & _ & _ & Ms & _).
+  set (u := (IZR (x_exp x) + BR (sp1_of x))%R).
+  assert (Bu : (Rabs u <= 1025)%R).
+  { assert (-1022 <= IZR (x_exp x) <= 1023)%R by (split; apply IZR_le; lia).
+    unfold u. apply Rabs_le. lra. }
+  assert (E1 : (Rabs (rndR u - u) <= bpow radix2 (-43))%R) by (apply rndR_err_1026; lra).
+  assert (B1 : (Rabs (rndR u) <= 1025)%R) by (apply (rndR_abs_le u 1025); [lia|exact Bu]).
+  assert (E2 : (Rabs (rndR (rndR u - 1) - (rndR u - 1)) <= bpow radix2 (-43))%R).
+  { apply rndR_err_1026. apply Rabs_le_inv in B1. apply Rabs_le. lra. }
+  replace (rndR (rndR u - 1) - (IZR (x_exp x) + (BR (sp1_of x) - 1)))%R
+    with ((rndR (rndR u - 1) - (rndR u - 1)) + (rndR u - u))%R by (unfold u; ring).
+  apply Rle_trans with (1 := Rabs_triang _ _).
+  change (bpow radix2 (-42)) with (/ IZR (Z.pow_pos 2 42))%R.
+  change (bpow radix2 (-43)) with (/ IZR (Z.pow_pos 2 43))%R in E1, E2.
+  change (Z.pow_pos 2 43) with 8796093022208 in E1, E2. change (Z.pow_pos 2 42) with 4398046511104.
+  lra.
+Qed.
+
+(* ------------------------------------------------------------------ *)
+(* 10. cubic mapping: constants, rounding-error lemma *)
+(* ------------------------------------------------------------------ *)
+
+(* rounding error of a real below 2^e: half an ulp, at most 2^(e-54) *)
+Lemma rndR_err_lt (r : R) (e : Z) : -1021 <= e -> (Rabs r < bpow radix2 e)%R ->
+  (Rabs (rndR r - r) <= bpow radix2 (e - 54))%R.
+Proof.
+  intros He Hr. destruct (Req_dec r 0) as [->|Hn].
+  - unfold rndR. rewrite round_0 by apply valid_rnd_N. rewrite Rminus_0_r, Rabs_R0. apply bpow_ge_0.
+  - unfold rndR. apply Rle_trans with (/ 2 * ulp radix2 (FLT_exp (-1074) 53) r)%R.
+    + apply error_le_half_ulp. exact fexp64_valid.
+    + rewrite ulp_neq_0 by exact Hn.
+      replace (e - 54) with (-1 + (e - 53)) by lia. rewrite bpow_plus.
+      change (bpow radix2 (-1)) with (/ 2)%R.
+      apply Rmult_le_compat_l; [lra|]. apply bpow_le. unfold cexp, FLT_exp.
+      pose proof (mag_le_bpow radix2 r e Hn Hr). lia.
+Qed.
+
+(* the value of a float given by its bits *)
+Lemma BR_fb (n : N) : BR (fb n) = FF2R radix2 (binary_float_of_bits_aux 52 11 (Z.of_N n)).
+Proof. unfold fb, f64_of_bits, b64_of_bits, binary_float_of_bits. apply B2R_FF2B. Qed.
+
+Definition cAr : R := (IZR 6176365203250966 / IZR 36028797018963968)%R.   (* * 2^-55 *)
+Definition cBr : R := (- IZR 5404319552844595 / IZR 9007199254740992)%R.   (* * 2^-53 *)
+Definition cCr : R := (IZR 6433713753386423 / IZR 4503599627370496)%R.     (* * 2^-52 *)
+
+Lemma cA_BR : BR cA = cAr.
+Proof.
+  unfold cA. rewrite BR_fb. set (u := binary_float_of_bits_aux 52 11 _). vm_compute in u. subst u.
+  unfold FF2R, F2R. cbn [Fnum Fexp cond_Zopp].
+  change (bpow radix2 (-55)) with (/ IZR (Z.pow_pos 2 55))%R.
+  change (Z.pow_pos 2 55) with 36028797018963968. reflexivity.
+Qed.
+Lemma cB_BR : BR cB = cBr.
+Proof.
+  unfold cB. rewrite BR_fb. set (u := binary_float_of_bits_aux 52 11 _). vm_compute in u. subst u.
+  unfold FF2R, F2R. cbn [Fnum Fexp cond_Zopp].
+  change (bpow radix2 (-53)) with (/ IZR (Z.pow_pos 2 53))%R.
+  change (Z.pow_pos 2 53) with 9007199254740992. unfold cBr. rewrite opp_IZR. field.
+Qed.
+Lemma cC_BR : BR cC = cCr.
+Proof.
+  unfold cC. rewrite BR_fb. set (u := binary_float_of_bits_aux 52 11 _). vm_compute in u. subst u.
+  unfold FF2R, F2R. cbn [Fnum Fexp cond_Zopp].
+  change (bpow radix2 (-52)) with (/ IZR (Z.pow_pos 2 52))%R.
+  change (Z.pow_pos 2 52) with 4503599627370496. reflexivity.
+Qed.
+Lemma cA_fin : fin cA. Proof. reflexivity. Qed.
+Lemma cB_fin : fin cB. Proof. reflexivity. Qed.
+Lemma cC_fin : fin cC. Proof. reflexivity. Qed.
+
+(* the three float constants sum to 1 + 2^-54 *)
+Lemma cABC : (cAr + cBr + cCr = 1 + / IZR 18014398509481984)%R.
+Proof. unfold cAr, cBr, cCr. field. Qed.
+
+(* ------------------------------------------------------------------ *)
+(* 11. cubic mapping: the Horner evaluation as a function of the real significand;
+   monotone on the grid j * 2^-52 although the individual steps are not *)
+(* ------------------------------------------------------------------ *)
+Section CubReal.
+Local Open Scope R_scope.
+
+Definition d52 : R := / IZR 4503599627370496.
+Definition e53 : R := / IZR 9007199254740992.
+Definition e54 : R := / IZR 18014398509481984.
+Definition e55 : R := / IZR 36028797018963968.
+Definition e56 : R := / IZR 72057594037927936.
+
+Lemma bpow_d52 : bpow radix2 (-52) = d52. Proof. reflexivity. Qed.
+Lemma bpow_e53 : bpow radix2 (-53) = e53. Proof. reflexivity. Qed.
+Lemma bpow_e54 : bpow radix2 (-54) = e54. Proof. reflexivity. Qed.
+Lemma bpow_e55 : bpow radix2 (-55) = e55. Proof. reflexivity. Qed.
+Lemma bpow_e56 : bpow radix2 (-56) = e56. Proof. reflexivity. Qed.
+
+(* dyadic constants are fixed by the rounding *)
+Lemma rndR_52 (k : Z) (r : R) : (Z.abs k < 2 ^ 53)%Z -> r = IZR k * d52 -> rndR r = r.
+Proof. intros Hk ->. rewrite <- bpow_d52. apply rndR_generic. apply format_52. exact Hk. Qed.
+
+Lemma rndR_quarter : rndR (/ 4) = / 4.
+Proof. apply (rndR_52 1125899906842624); [lia|unfold d52; lra]. Qed.
+Lemma rndR_eighth : rndR (/ 8) = / 8.
+Proof. apply (rndR_52 562949953421312); [lia|unfold d52; lra]. Qed.
+Lemma rndR_mhalf : rndR (- / 2) = - / 2.
+Proof. apply (rndR_52 (-2251799813685248)); [lia|unfold d52; lra]. Qed.
+Lemma rndR_0 : rndR 0 = 0.
+Proof. apply (rndR_IZR 0). lia. Qed.
+Lemma rndR_1 : rndR 1 = 1.
+Proof. apply (rndR_IZR 1). lia. Qed.
+Lemma rndR_2 : rndR 2 = 2.
+Proof. apply (rndR_IZR 2). lia. Qed.
+Lemma rndR_m1 : rndR (-1) = -1.
+Proof. apply (rndR_IZR (-1)). lia. Qed.
+Lemma rndR_cBr : rndR cBr = cBr.
+Proof. rewrite <- cB_BR. apply rndR_generic. apply BR_format. Qed.
+
+(* the Horner evaluation of approximateLog (cubic), as a function of the real s *)
+Definition Ga (s : R) : R := rndR (cAr * s).
+Definition Gb (s : R) : R := rndR (Ga s + cBr).
+Definition Gc (s : R) : R := rndR (Gb s * s).
+Definition Gd (s : R) : R := rndR (Gc s + cCr).
+Definition Gg (s : R) : R := rndR (Gd s * s).
+
+Lemma cAr_bounds : 17 / 100 <= cAr <= 18 / 100.
+Proof. unfold cAr. lra. Qed.
+Lemma cBr_bounds : - 6 / 10 <= cBr <= - 59 / 100.
+Proof. unfold cBr. lra. Qed.
+Lemma cCr_bounds : 142 / 100 <= cCr <= 143 / 100.
+Proof. unfold cCr. lra. Qed.
+
+Lemma Ga_props (s : R) : 0 <= s < 1 ->
+  0 <= Ga s <= / 4 /\ Rabs (Ga s - cAr * s) <= e56.
+Proof.
+  intros Hs. pose proof cAr_bounds as HA.
+  assert (H0 : 0 <= cAr * s) by (apply Rmult_le_pos; lra).
+  assert (H1 : cAr * s < / 4) by nra.
+  unfold Ga. repeat split.
+  - rewrite <- rndR_0. apply rndR_le. exact H0.
+  - rewrite <- rndR_quarter. apply rndR_le. lra.
+  - rewrite <- bpow_e56. apply (rndR_err_lt _ (-2)); [lia|].
+    rewrite Rabs_pos_eq by exact H0. change (bpow radix2 (-2)) with (/ 4). exact H1.
+Qed.
+
+Lemma Gb_props (s : R) : 0 <= s < 1 ->
+  cBr <= Gb s <= 0 /\ Rabs (Gb s - (Ga s + cBr)) <= e54.
+Proof.
+  intros Hs. destruct (Ga_props s Hs) as ((A0 & A1) & _). pose proof cBr_bounds as HB.
+  unfold Gb. repeat split.
+  - rewrite <- rndR_cBr at 1. apply rndR_le. lra.
+  - rewrite <- rndR_0. apply rndR_le. lra.
+  - rewrite <- bpow_e54. apply (rndR_err_lt _ 0); [lia|].
+    change (bpow radix2 0) with 1. apply Rabs_lt. lra.
+Qed.
+
+Lemma Gb_half (s : R) : 0 <= s < 1 -> Rabs (Gb s * s) < / 2.
+Proof.
+  intros Hs. destruct (Gb_props s Hs) as ((B0 & B1) & _). pose proof cBr_bounds as HB.
+  rewrite Rabs_left1 by (rewrite <- (Rmult_0_l s); apply Rmult_le_compat_r; lra).
+  destruct (Rle_lt_dec s (4 / 5)) as [Hle|Hgt].
+  - nra.
+  - assert (B2 : - / 2 <= Gb s).
+    { unfold Gb. rewrite <- rndR_mhalf. apply rndR_le.
+      assert (/ 8 <= Ga s).
+      { unfold Ga. rewrite <- rndR_eighth. apply rndR_le. pose proof cAr_bounds. nra. }
+      lra. }
+    nra.
+Qed.
+
+Lemma Gc_props (s : R) : 0 <= s < 1 ->
+  -1 <= Gc s <= 0 /\ Rabs (Gc s - Gb s * s) <= e55.
+Proof.
+  intros Hs. pose proof (Gb_half s Hs) as Hh. destruct (Gb_props s Hs) as ((B0 & B1) & _).
+  assert (Hn : Gb s * s <= 0) by (rewrite <- (Rmult_0_l s); apply Rmult_le_compat_r; lra).
+  apply Rabs_lt_inv in Hh.
+  unfold Gc. repeat split.
+  - rewrite <- rndR_m1. apply rndR_le. lra.
+  - rewrite <- rndR_0. apply rndR_le. exact Hn.
+  - rewrite <- bpow_e55. apply (rndR_err_lt _ (-1)); [lia|].
+    change (bpow radix2 (-1)) with (/ 2). apply Rabs_lt. lra.
+Qed.
+
+Lemma Gd_props (s : R) : 0 <= s < 1 ->
+  Gd s <= 2 /\ Rabs (Gd s - (Gc s + cCr)) <= e53.
+Proof.
+  intros Hs. destruct (Gc_props s Hs) as ((C0 & C1) & _). pose proof cCr_bounds as HC.
+  unfold Gd. split.
+  - rewrite <- rndR_2. apply rndR_le. lra.
+  - rewrite <- bpow_e53. apply (rndR_err_lt _ 1); [lia|].
+    change (bpow radix2 1) with 2. apply Rabs_lt. lra.
+Qed.
+
+Lemma pred_one : pred radix2 (FLT_exp (-1074) 53) 1 = 1 - e53.
+Proof.
+  change 1 with (bpow radix2 0) at 1. rewrite pred_bpow.
+  change (FLT_exp (-1074) 53 0) with (-53)%Z. rewrite bpow_e53. reflexivity.
+Qed.
+
+(* a real slightly below 1 still rounds to at least 1 *)
+Lemma rndR_ge_1 (z : R) : 1 - e54 < z -> 1 <= rndR z.
+Proof.
+  intros Hz. unfold rndR. apply (round_N_ge_midp radix2 (FLT_exp (-1074) 53)).
+  - change 1 with (IZR 1). apply int_format. lia.
+  - rewrite pred_one. unfold e53, e54 in *. lra.
+Qed.
+
+Lemma poly_low (s : R) : 0 <= s <= 1 -> cAr + cBr <= (cAr * s + cBr) * s.
+Proof.
+  intros Hs. pose proof cAr_bounds. pose proof cBr_bounds.
+  assert (0 <= (1 - s) * (- (cAr * (s + 1) + cBr))) by (apply Rmult_le_pos; nra).
+  nra.
+Qed.
+
+Lemma Gd_ge_1 (s : R) : 0 <= s < 1 -> 1 <= Gd s.
+Proof.
+  intros Hs.
+  destruct (Ga_props s Hs) as (_ & EA). destruct (Gb_props s Hs) as (_ & EB).
+  destruct (Gc_props s Hs) as (_ & EC).
+  apply Rabs_le_inv in EA, EB, EC.
+  pose proof (poly_low s ltac:(lra)) as HP. pose proof cABC as HS. fold e54 in HS.
+  unfold Gd. apply rndR_ge_1.
+  assert (HB : cAr * s + cBr - e56 - e54 <= Gb s) by lra.
+  assert (HBs : (cAr * s + cBr - e56 - e54) * s <= Gb s * s) by (apply Rmult_le_compat_r; lra).
+  assert (He : 0 < e56 /\ 0 < e54 /\ e55 + e56 < e54) by (unfold e54, e55, e56; lra).
+  nra.
+Qed.
+
+Lemma multiple_52_R (r : R) : generic_format radix2 (FLT_exp (-1074) 53) r -> 1 <= Rabs r ->
+  exists k : Z, r = IZR k * d52.
+Proof.
+  intros Hg Hr. unfold generic_format in Hg.
+  set (M := Ztrunc (scaled_mantissa radix2 (FLT_exp (-1074) 53) r)) in Hg.
+  set (c := cexp radix2 (FLT_exp (-1074) 53) r) in Hg.
+  assert (Hc : (-52 <= c)%Z).
+  { unfold c, cexp, FLT_exp.
+    assert (1 <= mag radix2 r)%Z by (apply mag_ge_bpow; exact Hr). lia. }
+  exists (M * 2 ^ (c + 52))%Z. rewrite Hg at 1. unfold F2R. cbn [Fnum Fexp].
+  rewrite mult_IZR. change 2%Z with (radix_val radix2) at 1. rewrite IZR_Zpower by lia.
+  rewrite <- bpow_d52, Rmult_assoc, <- bpow_plus. f_equal. f_equal. lia.
+Qed.
+
+Lemma Gd_multiple (s : R) : 0 <= s < 1 -> exists k : Z, Gd s = IZR k * d52.
+Proof.
+  intros Hs. apply multiple_52_R.
+  - unfold Gd, rndR. apply generic_format_round; [exact fexp64_valid|apply valid_rnd_N].
+  - pose proof (Gd_ge_1 s Hs). rewrite Rabs_pos_eq; lra.
+Qed.
+
+(* monotonicity of the Horner evaluation on the grid of significands *)
+Lemma Gg_mono (j j' : Z) : (0 <= j)%Z -> (j <= j')%Z -> (j' < 2 ^ 52)%Z ->
+  Gg (IZR j * d52) <= Gg (IZR j' * d52).
+Proof.
+  intros Hj Hjj Hj'.
+  destruct (Z.eq_dec j j') as [->|Hne]; [apply Rle_refl|].
+  set (s := IZR j * d52). set (s' := IZR j' * d52).
+  assert (Hd : 0 < d52) by (unfold d52; lra).
+  assert (Hs : 0 <= s < 1).
+  { unfold s. split.
+    - apply Rmult_le_pos; [apply IZR_le; lia|lra].
+    - apply Rlt_le_trans with (IZR (2 ^ 52) * d52).
+      + apply Rmult_lt_compat_r; [exact Hd|apply IZR_lt; lia].
+      + change (2 ^ 52)%Z with 4503599627370496%Z. unfold d52. lra. }
+  assert (Hs' : 0 <= s' < 1).
+  { unfold s'. split.
+    - apply Rmult_le_pos; [apply IZR_le; lia|lra].
+    - apply Rlt_le_trans with (IZR (2 ^ 52) * d52).
+      + apply Rmult_lt_compat_r; [exact Hd|apply IZR_lt; lia].
+      + change (2 ^ 52)%Z with 4503599627370496%Z. unfold d52. lra. }
+  assert (HD : s + d52 <= s').
+  { unfold s, s'. replace (IZR j * d52 + d52) with (IZR (j + 1) * d52) by (rewrite plus_IZR; ring).
+    apply Rmult_le_compat_r; [lra|apply IZR_le; lia]. }
+  (* b <= b' *)
+  assert (Hbb : Gb s <= Gb s').
+  { unfold Gb, Ga. apply rndR_le. apply Rplus_le_compat_r. apply rndR_le.
+    pose proof cAr_bounds. apply Rmult_le_compat_l; lra. }
+  destruct (Gb_props s Hs) as ((B0 & B1) & _). destruct (Gb_props s' Hs') as ((B0' & B1') & _).
+  destruct (Gc_props s Hs) as (_ & EC). destruct (Gc_props s' Hs') as (_ & EC').
+  destruct (Gd_props s Hs) as (_ & ED). destruct (Gd_props s' Hs') as (_ & ED').
+  apply Rabs_le_inv in EC, EC', ED, ED'.
+  pose proof cBr_bounds as HB.
+  (* b s - b' s' <= 0.6 (s' - s) *)
+  assert (H1 : Gb s * s - Gb s' * s' <= 6 / 10 * (s' - s)).
+  { replace (Gb s * s - Gb s' * s') with ((Gb s - Gb s') * s + (- Gb s') * (s' - s)) by ring.
+    assert ((Gb s - Gb s') * s <= 0).
+    { rewrite <- (Rmult_0_l s). apply Rmult_le_compat_r; lra. }
+    assert (- Gb s' * (s' - s) <= 6 / 10 * (s' - s)) by (apply Rmult_le_compat_r; lra).
+    lra. }
+  (* d - d' < (s' - s) + d52 *)
+  assert (He : e55 + e55 = e54 /\ e53 + e53 = d52 /\ 4 * e54 = d52 /\ 0 < e54)
+    by (unfold e53, e54, e55, d52; lra).
+  assert (H2 : Gd s - Gd s' < (s' - s) + d52) by lra.
+  (* integrality *)
+  destruct (Gd_multiple s Hs) as (k & Hk). destruct (Gd_multiple s' Hs') as (k' & Hk').
+  assert (H3 : Gd s - Gd s' <= s' - s).
+  { rewrite Hk, Hk' in *. unfold s, s' in *.
+    assert (IZR (k - k') < IZR (j' - j + 1)).
+    { rewrite !minus_IZR, plus_IZR, minus_IZR.
+      apply Rmult_lt_reg_r with d52; [exact Hd|]. simpl (IZR 1). lra. }
+    apply lt_IZR in H.
+    assert (IZR (k - k') <= IZR (j' - j)) by (apply IZR_le; lia).
+    rewrite !minus_IZR in H0.
+    replace (IZR k * d52 - IZR k' * d52) with ((IZR k - IZR k') * d52) by ring.
+    replace (IZR j' * d52 - IZR j * d52) with ((IZR j' - IZR j) * d52) by ring.
+    apply Rmult_le_compat_r; lra. }
+  pose proof (Gd_ge_1 s' Hs') as H4.
+  unfold Gg. apply rndR_le.
+  (* d s <= d' s' *)
+  replace (Gd s' * s') with (Gd s * s + ((Gd s' - Gd s) * s + Gd s' * (s' - s))) by ring.
+  assert ((Gd s - Gd s') * s <= (s' - s) * s) by (apply Rmult_le_compat_r; lra).
+  assert (1 * (s' - s) <= Gd s' * (s' - s)) by (apply Rmult_le_compat_r; lra).
+  assert ((s' - s) * s <= (s' - s) * 1) by (apply Rmult_le_compat_l; lra).
+  lra.
+Qed.
+
+Lemma Gg_nonneg (s : R) : 0 <= s < 1 -> 0 <= Gg s.
+Proof.
+  intros Hs. pose proof (Gd_ge_1 s Hs). unfold Gg. rewrite <- rndR_0. apply rndR_le.
+  apply Rmult_le_pos; lra.
+Qed.
+
+(* at the largest significand the polynomial value is still at most 1 *)
+Lemma Gg_top : Gg (1 - d52) <= 1.
+Proof.
+  assert (Hd : 0 < d52 < / 1000) by (unfold d52; lra).
+  remember (1 - d52) as s eqn:Es.
+  assert (Hs : 0 <= s < 1) by lra.
+  destruct (Ga_props _ Hs) as (_ & EA). destruct (Gb_props _ Hs) as (_ & EB).
+  destruct (Gc_props _ Hs) as (_ & EC).
+  apply Rabs_le_inv in EA, EB, EC.
+  assert (H1 : Gb s * s <= (Ga s + cBr + e54) * s) by (apply Rmult_le_compat_r; lra).
+  assert (H2 : Ga s * s <= (cAr * s + e56) * s) by (apply Rmult_le_compat_r; lra).
+  assert (N : cAr * (s * s) + (cBr + e56 + e54) * s + e55 + cCr <= 1 + d52).
+  { rewrite Es. unfold cAr, cBr, cCr, e54, e55, e56, d52. lra. }
+  assert (HD : Gd s <= 1 + d52).
+  { unfold Gd. rewrite <- (rndR_52 4503599627370497 (1 + d52)) by (try lia; unfold d52; lra).
+    apply rndR_le. lra. }
+  unfold Gg. rewrite <- rndR_1. apply rndR_le.
+  assert (Gd s * s <= (1 + d52) * s) by (apply Rmult_le_compat_r; lra).
+  assert ((1 + d52) * s <= 1) by (rewrite Es; nra).
+  lra.
+Qed.
+
+Lemma Gg_le_1 (j : Z) : (0 <= j < 2 ^ 52)%Z -> Gg (IZR j * d52) <= 1.
+Proof.
+  intros Hj. apply Rle_trans with (2 := Gg_top).
+  replace (1 - d52) with (IZR (2 ^ 52 - 1) * d52).
+  - apply Gg_mono; lia.
+  - change (2 ^ 52 - 1)%Z with 4503599627370495%Z. unfold d52. field.
+Qed.
+End CubReal.
+
+(* ------------------------------------------------------------------ *)
+(* 12. cubic mapping: approximateLog and Index are monotone *)
+(* ------------------------------------------------------------------ *)
+
+(* the significand of a positive normal float lies on the grid j * 2^-52 *)
+Lemma sp1_grid (x : f64) : pos_normal x ->
+  exists j : Z, 0 <= j < 2 ^ 52 /\ (BR (sp1_of x) - 1 = IZR j * d52)%R.
+Proof.
+  intros Hx. destruct (decompose x Hx) as (mx & ex & H & H' & -> & Hm & He & Hb & Hge & Hgs).
+  exists (Zpos mx - 2 ^ 52). split; [change (2 ^ 53) with (2 ^ 52 + 2 ^ 52) in Hm; lia|].
+  unfold sp1_of. rewrite Hgs. cbn [B2R cond_Zopp]. unfold F2R. cbn [Fnum Fexp].
+  rewrite bpow_d52, minus_IZR. change (2 ^ 52) with 4503599627370496. unfold d52. field.
+Qed.
+
+Section Cub.
+Variable L : libm.
+
+(* the float evaluation of  ((A s + B) s + C) s + e  is the real Horner chain Gg, then one addition *)
+Lemma approx_log_cub_R (x : f64) : pos_normal x ->
+  fin (approx_log L MCub x) /\
+  BR (approx_log L MCub x) = rndR (Gg (BR (sp1_of x) - 1) + IZR (x_exp x)) /\
+  (Rabs (BR (approx_log L MCub x)) <= 1026)%R.
+Proof.
+  intros Hx. destruct (sp1_grid x Hx) as (j & Hj & Es).
+  destruct (decompose_R x Hx) as (Be & _ & Fe & Re & Fs & Ms & _).
+  set (s := (BR (sp1_of x) - 1)%R) in *.
+  assert (Hs : (0 <= s < 1)%R) by (unfold s; lra).
+  unfold approx_log. fold (sp1_of x).
+  (* s = sp1 - 1, exact *)
+  destruct (fsub_bounded (sp1_of x) f64_one Fs f64_one_fin) as (FS & RS).
+  { rewrite f64_one_BR. apply (small_le_max 1); [lia|]. apply Rabs_le. fold s. lra. }
+  rewrite f64_one_BR in RS. fold s in RS.
+  rewrite (rndR_52 j s) in RS by (try lia; exact Es).
+  set (S := fsub (sp1_of x) f64_one) in *.
+  destruct (Ga_props s Hs) as ((A0 & A1) & _). destruct (Gb_props s Hs) as ((B0 & B1) & _).
+  pose proof (Gb_half s Hs) as Bh. destruct (Gc_props s Hs) as ((C0 & C1) & _).
+  destruct (Gd_props s Hs) as (D1 & _). pose proof (Gd_ge_1 s Hs) as D0.
+  pose proof cAr_bounds as HA. pose proof cBr_bounds as HB. pose proof cCr_bounds as HC.
+  (* a = A * s *)
+  destruct (fmul_bounded cA S cA_fin FS) as (Fa & Ra).
+  { rewrite cA_BR, RS. apply (small_le_max 1); [lia|]. apply Rabs_le. simpl (IZR 1). nra. }
+  rewrite cA_BR, RS in Ra. fold (Ga s) in Ra.
+  (* b = a + B *)
+  destruct (fadd_bounded (fmul cA S) cB Fa cB_fin) as (Fb & Rb).
+  { rewrite Ra, cB_BR. apply (small_le_max 1); [lia|]. apply Rabs_le. simpl (IZR 1). lra. }
+  rewrite Ra, cB_BR in Rb. fold (Gb s) in Rb.
+  (* c = b * s *)
+  destruct (fmul_bounded (fadd (fmul cA S) cB) S Fb FS) as (Fc & Rc).
+  { rewrite Rb, RS. apply (small_le_max 1); [lia|]. simpl (IZR 1). lra. }
+  rewrite Rb, RS in Rc. fold (Gc s) in Rc.
+  (* d = c + C *)
+  destruct (fadd_bounded _ cC Fc cC_fin) as (Fd & Rd).
+  { rewrite Rc, cC_BR. apply (small_le_max 2); [lia|]. apply Rabs_le. simpl (IZR 2). lra. }
+  rewrite Rc, cC_BR in Rd. fold (Gd s) in Rd.
+  (* g = d * s *)
+  destruct (fmul_bounded _ S Fd FS) as (Fg & Rg).
+  { rewrite Rd, RS. apply (small_le_max 2); [lia|]. apply Rabs_le. simpl (IZR 2). nra. }
+  rewrite Rd, RS in Rg. fold (Gg s) in Rg.
+  (* + e *)
+  pose proof (Gg_nonneg s Hs) as G0.
+  assert (G1 : (Gg s <= 1)%R) by (rewrite Es; apply Gg_le_1; exact Hj).
+  assert (Bx : (-1022 <= IZR (x_exp x) <= 1023)%R) by (split; apply IZR_le; lia).
+  destruct (fadd_bounded _ (get_exponent (bits_of_f64 x)) Fg Fe) as (Fl & Rl).
+  { rewrite Rg, Re. apply (small_le_max 1024); [lia|]. apply Rabs_le. simpl (IZR 1024). lra. }
+  rewrite Rg, Re in Rl.
+  split; [exact Fl|]. split; [exact Rl|].
+  rewrite Rl. apply Rle_trans with (IZR 1024); [|simpl; lra].
+  apply rndR_abs_le; [lia|]. apply Rabs_le. simpl (IZR 1024). lra.
+Qed.
+
+Theorem approx_log_cub_mono (x y : f64) : pos_normal x -> pos_normal y -> (BR x <= BR y)%R ->
+  (BR (approx_log L MCub x) <= BR (approx_log L MCub y))%R.
+Proof.
+  intros Hx Hy Hxy.
+  destruct (approx_log_cub_R x Hx) as (_ & -> & _). destruct (approx_log_cub_R y Hy) as (_ & -> & _).
+  destruct (sp1_grid x Hx) as (jx & Hjx & Esx). destruct (sp1_grid y Hy) as (jy & Hjy & Esy).
+  destruct (decompose_R x Hx) as (_ & _ & _ & _ & _ & Mx & Ex).
+  destruct (decompose_R y Hy) as (_ & _ & _ & _ & _ & My & Ey).
+  pose proof (x_exp_mono x y Hx Hxy) as He.
+  assert (Hd : (0 < d52)%R) by (unfold d52; lra).
+  apply rndR_le. rewrite Esx, Esy.
+  destruct (Z.eq_dec (x_exp x) (x_exp y)) as [E|E].
+  - rewrite E in *. apply Rplus_le_compat_r. apply Gg_mono; try lia.
+    apply le_IZR. apply Rmult_le_reg_r with d52; [exact Hd|]. rewrite <- Esx, <- Esy.
+    pose proof (bpow_gt_0 radix2 (x_exp y)) as Hp.
+    assert (BR (sp1_of x) <= BR (sp1_of y))%R; [|lra].
+    apply Rmult_le_reg_r with (bpow radix2 (x_exp y)); [exact Hp|]. rewrite <- Ex, <- Ey. exact Hxy.
+  - assert (IZR (x_exp x) + 1 <= IZR (x_exp y))%R by (rewrite <- plus_IZR; apply IZR_le; lia).
+    pose proof (Gg_le_1 jx Hjx). 
+    assert (0 <= Gg (IZR jy * d52))%R.
+    { apply Gg_nonneg. rewrite <- Esy. lra. }
+    lra.
+Qed.
+
+Theorem cub_index_mono (m : gmap) (x y : f64) :
+  gm_kind m = MCub -> (0 <= BR (gm_mult m))%R ->
+  pos_normal x -> pos_normal y -> (BR x <= BR y)%R ->
+  fin (fadd (fmul (approx_log L MCub x) (gm_mult m)) (gm_off m)) ->
+  fin (fadd (fmul (approx_log L MCub y) (gm_mult m)) (gm_off m)) ->
+  gm_index L m x <= gm_index L m y.
+Proof.
+  intros K Hm Hx Hy Hxy Fx Fy. rewrite !gm_index_eq, K.
+  apply index_of_mono; try assumption. apply approx_log_cub_mono; assumption.
+Qed.
+
+Theorem cub_index_mono_bounded (m : gmap) (x y : f64) :
+  gm_kind m = MCub -> fin (gm_mult m) -> fin (gm_off m) ->
+  (0 <= BR (gm_mult m) <= bpow radix2 40)%R -> (Rabs (BR (gm_off m)) <= bpow radix2 40)%R ->
+  pos_normal x -> pos_normal y -> (BR x <= BR y)%R ->
+  gm_index L m x <= gm_index L m y.
+Proof.
+  intros K Fm Fo Bm Bo Hx Hy Hxy.
+  destruct (approx_log_cub_R x Hx) as (Fax & _ & Bax).
+  destruct (approx_log_cub_R y Hy) as (Fay & _ & Bay).
+  assert (Bm' : (Rabs (BR (gm_mult m)) <= bpow radix2 40)%R) by (apply Rabs_le; lra).
+  apply cub_index_mono; try assumption; try lra; apply index_arg_fin; assumption.
+Qed.
+End Cub.
+
+(* the same value, written with the float constants A = cA, B = cB, C = cC of the model *)
+Lemma approx_log_cub_value (L : libm) (x : f64) : pos_normal x ->
+  fin (approx_log L MCub x) /\
+  BR (approx_log L MCub x) =
+    rndR (rndR (rndR (rndR (rndR (rndR (BR cA * (BR (sp1_of x) - 1)) + BR cB) * (BR (sp1_of x) - 1)) + BR cC)
+                * (BR (sp1_of x) - 1)) + IZR (x_exp x)) /\
+  (Rabs (BR (approx_log L MCub x)) <= 1026)%R.
+Proof. rewrite cA_BR, cB_BR, cC_BR. exact (approx_log_cub_R L x). Qed.
